@@ -368,6 +368,18 @@ def main():
     for fname, pre, M, T in FIELDS:
         mine = [(a, b) for f, a, b in forced if f == fname]
         mine += [(b, a) for a, b in mine]
+        # results at the edges of the final conditional subtraction: operands solved (division, square root; m = 3 mod 4) so that
+        # the Montgomery-domain result of Mul / Square is m - d for small d, a value around a limb boundary, or 0/1
+        Rm = pow(2, 256, M)
+        edge = [M - d for d in range(1, 65)] + [0, 1, 2] + [(1 << (64 * k)) + dd for k in (1, 2, 3) for dd in (-2, -1, 0, 1)] + [(M - (1 << (64 * k))) % M for k in (1, 2, 3)]
+        for tm in edge:
+            v = tm * pow(Rm, -1, M) % M              # canonical value whose Montgomery form is tm
+            a0 = rnd_elem(M) or 1
+            mine.append((a0, v * pow(a0, -1, M) % M))        # Mul(a0, b) has Montgomery form tm
+            rt = pow(v, (M + 1) // 4, M)
+            if rt * rt % M == v:
+                mine.append((rt, rnd_elem(M)))               # Square(rt) has Montgomery form tm
+                mine.append(((M - rt) % M, rt))
         for _ in range(24 + len(mine)):
             a, b = rnd_elem(M), rnd_elem(M)
             if _ == 0:
